@@ -818,7 +818,8 @@ class C06:
                 pre = pre.rstrip(b"/") + b"/"
             elif v in ("xpat", "ppat"):
                 alln = [e[1] for e in spec]
-                pats = [rnd.choice([b"*", b"*a*", b"?", b"*/?", b"*/*", b"*.*", b"??*", rnd.choice(alln), rnd.choice(alln)[:1] + b"*",
+                pats = [rnd.choice([b"*", b"*a*", b"?", b"*/?", b"*/*", b"*.*", b"??*", rnd.choice(alln), rnd.choice(alln)[:1] + b"*", b"*?", b"*?*", b"*?.*", b"**", rnd.choice(alln)[:1] + b"*?" + rnd.choice(alln)[-1:],
+                                    rnd.choice(alln)[:1] + b"**" + rnd.choice(alln)[-1:], b"?*?",
                                     b"*" + rnd.choice(alln)[-1:], b"nomatch", rnd.choice(alln).upper()])
                         for _ in range(rnd.choice([1, 1, 2, 3]))]
                 cmd = b"x" if v == "xpat" else b"p"
